@@ -162,6 +162,7 @@ type launchPlan struct {
 	doneBeforePause bool // hold the launcher after cmd.Start() until Done() has been sent
 	doneAtPause2    bool // hold the launcher right before it starts waiting until Done() has been sent
 	holdDaemon      bool // hold the daemon before Done() until the launcher is about to wait
+	fastTimers      bool // every timer the daemon package arms fires (nearly) at once: a slow daemon seen from the launcher's clock
 }
 
 // class returns the model's class of a forced plan (-1: free race)
@@ -254,6 +255,9 @@ func replay(work string, idx int, pl launchPlan, predicted map[bool]bool) (viol 
 	}
 	cmd := exec.Command(*procBin, "caller")
 	cmd.Env = append(os.Environ(), "GLB_VERIF_PAUSE_DIR="+dir)
+	if pl.fastTimers {
+		cmd.Env = append(cmd.Env, "GLB_VERIF_TIMER_SCALE=1000000")
+	}
 	cmd.Stdout, cmd.Stderr = nil, nil
 	if err := cmd.Start(); err != nil {
 		return "", "cannot start the caller: " + err.Error(), obs
@@ -294,6 +298,9 @@ func replay(work string, idx int, pl launchPlan, predicted map[bool]bool) (viol 
 			waitFile(filepath.Join(dir, "launch-after-start.reached"))
 		}
 		time.Sleep(50 * time.Millisecond)
+		if pl.fastTimers {
+			time.Sleep(250 * time.Millisecond) // hours on the launcher's scaled clock
+		}
 		if _, err := os.Stat(result); err == nil {
 			return "Launch returned although the daemon has not called Done() yet (it is being held before Done())", "", obs
 		}
@@ -610,6 +617,7 @@ func main() {
 		{"1 launch: daemon held before Done() until the launcher is about to wait", []launchPlan{{holdDaemon: true}}},
 		{"1 launch: daemon held, launcher held; Done() released first", []launchPlan{{doneBeforePause: true, holdDaemon: true}}},
 		{"1 launch: Done() lands while the launcher is held right before its wait", []launchPlan{{doneAtPause2: true}}},
+		{"1 launch: daemon held before Done() while every timer of the launcher fires at once (a daemon that is slow on the launcher's clock)", []launchPlan{{holdDaemon: true, fastTimers: true}}},
 		{"1 launch: nobody held (free race)", []launchPlan{{}}},
 		{"2 launches: both Done() before the pause point", []launchPlan{{doneBeforePause: true}, {doneBeforePause: true}}},
 		{"2 launches: one before, one after", []launchPlan{{doneBeforePause: true}, {holdDaemon: true}}},
